@@ -126,7 +126,7 @@ Lemma cb_preds_spec new var Ss F g0 names0 :
   Inv new var F g tbl value names M ->
   (forall p, In p preds -> efind g p = efind g0 p) ->
   (forall p, In p done -> exists b b', efind g0 p = Some b /\ efind g p = Some b' /\
-       e_be b' = e_be b /\ ArcsOf (e_jt b) (e_jt b') M) ->
+       replace_jt b (e_jt b') = Some b' /\ ArcsOf (e_jt b) (e_jt b') M) ->
   (forall a, In a names -> In a names0) ->
   (forall x, ~ In x done -> ~ In x names0 -> efind g x = efind g0 x) ->
   forall g' tbl',
@@ -134,7 +134,7 @@ Lemma cb_preds_spec new var Ss F g0 names0 :
   exists value' names' M',
     Inv new var F g' tbl' value' names' M' /\
     (forall p, In p preds \/ In p done -> exists b b', efind g0 p = Some b /\ efind g' p = Some b' /\
-       e_be b' = e_be b /\ ArcsOf (e_jt b) (e_jt b') M') /\
+       replace_jt b (e_jt b') = Some b' /\ ArcsOf (e_jt b) (e_jt b') M') /\
     (forall x, ~ In x preds -> ~ In x done -> ~ In x names0 -> efind g' x = efind g0 x).
 Proof.
   intros HSsF. induction preds as [|p rest IH];
@@ -176,10 +176,10 @@ Proof.
     { intros q Hq. rewrite Hf3n by (intros ->; contradiction).
       rewrite Hkeep by (apply HFn, HpF; right; exact Hq). apply Hrest. right. exact Hq. }
     assert (P5 : forall q, In q (p :: done) -> exists b b', efind g0 q = Some b /\ efind g3 q = Some b' /\
-       e_be b' = e_be b /\ ArcsOf (e_jt b) (e_jt b') M1).
+       replace_jt b (e_jt b') = Some b' /\ ArcsOf (e_jt b) (e_jt b') M1).
     { intros q [<-|Hq].
       * exists b, b'. split; [rewrite <- Hrest by (left; reflexivity); exact Hb|].
-        rewrite Hf3, Z.eqb_refl. split; [reflexivity|]. split; [exact Hbe|]. rewrite Hjt. exact A1.
+        rewrite Hf3, Z.eqb_refl. split; [reflexivity|]. rewrite Hjt. split; [exact Hr|]. exact A1.
       * destruct (Hdone q Hq) as [c [c' [H1 [H2 [H3 H4]]]]]. exists c, c'. split; [exact H1|].
         assert (q <> p) by (intros ->; apply (Hpd p); [left; reflexivity|exact Hq]).
         rewrite Hf3n by assumption. rewrite Hkeep by (apply HFn, HdF; exact Hq).
@@ -205,7 +205,7 @@ Theorem insert_cb_spec g new var preds Ss names cls g' :
   exists tbl,
     efind g' new = Some (mkE Ss [] (EBranch cls var tbl)) /\
     (forall p, In p preds -> exists b b', efind g p = Some b /\ efind g' p = Some b' /\
-       length (e_jt b) = length (e_jt b') /\ e_be b' = e_be b /\
+       length (e_jt b) = length (e_jt b') /\ e_be b' = e_be b /\ replace_jt b (e_jt b') = Some b' /\
        forall k s t', nth_error (e_jt b) k = Some s -> nth_error (e_jt b') k = Some t' ->
                       ArcOk g' new var tbl s t') /\
     (forall x, x <> new -> ~ In x preds -> ~ In x names -> efind g' x = efind g x).
@@ -238,7 +238,7 @@ Proof.
   exists tbl. split; [rewrite Hf, Z.eqb_refl; reflexivity|]. split.
   - intros p Hpin. destruct (Hall p (or_introl Hpin)) as [b [b' [H1 [H2 [H3 [Hl Hpos]]]]]].
     exists b, b'. split; [exact H1|]. rewrite Hfn by (intros ->; contradiction).
-    split; [exact H2|]. split; [symmetry; exact Hl|]. split; [exact H3|].
+    split; [exact H2|]. split; [symmetry; exact Hl|]. split; [apply (replace_jt_facts _ _ _ H3)|]. split; [exact H3|].
     intros k s t' Hs Ht. destruct (Hpos k s t' Hs Ht) as [->|[i Hi]]; [left; reflexivity|].
     right. exists i. destruct (Jarcs _ _ _ Hi) as [A [B [_ [_ E]]]].
     rewrite Hfn by (intros ->; apply E; left; reflexivity). auto.
@@ -456,7 +456,7 @@ Theorem insert_cb_reroutes g new var preds Ss names cls g' :
   exists tbl,
     efind g' new = Some (mkE Ss [] (EBranch cls var tbl)) /\
     (forall p, In p preds -> exists b b', efind g p = Some b /\ efind g' p = Some b' /\
-       length (e_jt b) = length (e_jt b') /\ e_be b' = e_be b /\ NoDup (e_jt b') /\
+       length (e_jt b) = length (e_jt b') /\ e_be b' = e_be b /\ replace_jt b (e_jt b') = Some b' /\ NoDup (e_jt b') /\
        forall k s t', nth_error (e_jt b) k = Some s -> nth_error (e_jt b') k = Some t' ->
          (~ In s Ss -> t' = s) /\
          (In s Ss -> In t' names /\
@@ -483,8 +483,8 @@ Proof.
               (fun p q b1 b2 (Hx : In p []) => match Hx with end)
               g1 tbl0 Hp) as [Hpos Hdisj].
   exists tbl. split; [exact Hhead|]. split; [|split; [|exact Hoth]].
-  - intros p Hpin. destruct (Hpreds p Hpin) as [b [b' [H1 [H2 [Hl [Hbe Harc]]]]]].
-    exists b, b'. split; [exact H1|]. split; [exact H2|]. split; [exact Hl|]. split; [exact Hbe|].
+  - intros p Hpin. destruct (Hpreds p Hpin) as [b [b' [H1 [H2 [Hl [Hbe [Hrj Harc]]]]]]].
+    exists b, b'. split; [exact H1|]. split; [exact H2|]. split; [exact Hl|]. split; [exact Hbe|]. split; [exact Hrj|].
     destruct (Hpos p (or_introl Hpin)) as [c [c' [G1 [G2 [P1 [P2 _]]]]]].
     assert (c = b) by congruence. subst c.
     assert (c' = b') by (rewrite Hfn in H2 by (intros ->; contradiction); congruence). subst c'.
